@@ -319,7 +319,8 @@ def build_config(sc, d: Path, shims: bool = True, warm_file: str | None = None,
         cfg["forcing"] = forcing
     else:  # analytic plug-in world
         an = str(PLUGIN_DIR / "analytic.py")
-        cfg["grid"] = {"module": an, "spec": json.dumps(sc["analytic"])}
+        # configure_v2 wants a grid or forcing file name even for file-less plug-ins
+        cfg["grid"] = {"module": an, "filename": "analytic", "spec": json.dumps(sc["analytic"])}
         cfg["forcing"] = {"module": an, "spec": json.dumps(sc["analytic"])}
 
     tr = sc.get("tracker", {})
